@@ -143,6 +143,8 @@ impl fmt::Display for EscapeUnit {
             Self::CarriageReturn => f.write_str("\\r"),
             Self::Tab => f.write_str("\\t"),
             Self::VerticalTab => f.write_str("\\v"),
+            // A backslash must be escaped to be a control character.
+            Self::Control(0x1C) => f.write_str("\\c\\\\"),
             Self::Control(b) => write!(f, "\\c{}", (*b ^ 0x40) as char),
             Self::Octal(b) => write!(f, "\\{b:03o}"),
             Self::Hex(b) => write!(f, "\\x{b:02X}"),
